@@ -27,10 +27,11 @@ TOK = 1 << 260
 MODELLED = {
     "dlog": "X_dlog", "com_eq": "X_com_eq", "com_enc_eq": "X_com_enc_eq", "com_mult": "X_com_mult",
     "aggregate_dlog": "X_aggregate_dlog", "and(dlog,com_eq)": "X_and_dlog_com_eq",
-    "replicate(dlog)": "X_replicate_dlog",
+    "replicate(dlog)": "X_replicate_dlog", "com_lin": "X_com_lin", "com_eq_different_groups": "X_com_eq_diff",
+    "enc_trans": "X_enc_trans", "com_ineq/com_mult": "X_com_mult",
 }
 PREAMBLE = ("From Coq Require Import ZArith NArith List.\n"
-            "From CB Require Import Crypto.Alg Crypto.Transcript Crypto.SigmaGeneric Crypto.SigmaCodec Crypto.SigmaExec.\n"
+            "From CB Require Import Crypto.Alg Crypto.Transcript Crypto.SigmaGeneric Crypto.SigmaCodec Crypto.SigmaExec Crypto.Sigma_com_ineq.\n"
             "Import ListNotations.\n")
 
 
@@ -50,6 +51,13 @@ def zl(xs):
 
 def kind(k):
     return "V1" if k == "v1" else "Legacy"
+
+
+def case_ctx(k, cs):
+    if "ineq" in cs:  # verify_com_ineq's own transcript prefix, as modelled by Sigma_com_ineq.com_ineq_ctx
+        g, h, cc, v = [int(x, 16) for x in cs["ineq"]]
+        return "(com_ineq_ctx ZrCodec %s%%Z %s%%Z %s%%Z %s%%Z)" % (num(g), num(h), num(cc), num(v))
+    return ctx_expr(k, cs["ctx"])
 
 
 def ctx_expr(k, ctx):
@@ -99,13 +107,13 @@ def parse_hexout(body):
 def honest_expr(cs):
     k = kind(cs["k"])
     return HEXOUT_H % "x_honest %s %s %s %s %s (scalar_from_bytes_bls %s) %s" % (
-        MODELLED[cs["p"]], k, ctx_expr(k, cs["ctx"]), zl([int(x, 16) for x in cs["pub"]]),
+        MODELLED[cs["p"]], k, case_ctx(k, cs), zl([int(x, 16) for x in cs["pub"]]),
         zl([int(x, 16) for x in cs["wit"]]), nl(bytes.fromhex(cs["chal"])), zl(scalars(cs)))
 
 
 def verify_expr(cs, pubs, resp):
     k = kind(cs["k"])
-    return HEXOUT_V % ("x_verify %s %s %s %s %s %s" % (MODELLED[cs["p"]], k, ctx_expr(k, cs["ctx"]), zl(pubs),
+    return HEXOUT_V % ("x_verify %s %s %s %s %s %s" % (MODELLED[cs["p"]], k, case_ctx(k, cs), zl(pubs),
                                                        nl(bytes.fromhex(cs["chal"])), zl(resp)))
 
 
@@ -197,6 +205,7 @@ def run(ctx):
     seen, nontrivial = set(), set()
     n_pert = n_pert_rej = n_degenerate = 0
     nviol = [0]
+    n_attack = [0]
 
     def viol(obj, msg):
         nviol[0] += 1
@@ -230,6 +239,9 @@ def run(ctx):
                 if not rej:
                     viol({"case": cs, "perturbation": nm}, "com_ineq: proof still accepted after altering %s" % nm)
             continue
+        if cs["made"] == "skipped":
+            ctx.notes.setdefault("skipped", []).append(cs.get("why"))
+            continue
         if cs["made"] == "PANIC":
             d["panic"] += 1
             if cs.get("expect_panic"):
@@ -248,8 +260,15 @@ def run(ctx):
             viol({"case": cs}, "%s: honest proof does not verify (completeness)" % key)
             continue
         d["verified"] += 1
-        if cs["vpost"] != cs["post"]:
+        if cs["post"] is not None and cs["vpost"] != cs["post"]:
             viol({"case": cs}, "%s: prover and verifier end in different transcript states" % key)
+        ta = cs.get("trunc_attack")
+        if ta is not None:
+            n_attack[0] += 1
+            if ta.get("accepted") is not False:
+                viol({"case": cs, "attack": ta},
+                     "%s: truncated-response attack accepted: a crafted prover that hashes the full statement but commits/responds "
+                     "for the statement with one vector item omitted is not rejected (response length check)" % key)
         for pe in cs["pert"]:
             nm, rej = pe[0], pe[1]
             same_cm = pe[2] if len(pe) > 2 else False
@@ -358,7 +377,7 @@ def run(ctx):
                     problems.append("model response from recovered randomness != implementation response")
                 if sha3(fb) != cs["chal"]:
                     problems.append("sha3(model frame: context, public, commit message) != implementation challenge")
-                if sha3(ab_) != cs["post"]:
+                if cs["post"] is not None and sha3(ab_) != cs["post"]:
                     problems.append("sha3(model transcript after proof) != implementation transcript state after proof")
                 if cs.get("cm") and not fb.endswith(bytes.fromhex(cs["cm"])):
                     problems.append("model commit-message bytes != implementation's reconstructed commit message")
@@ -409,6 +428,7 @@ def run(ctx):
     ctx.notes["distribution"] = dist
     ctx.notes["perturbations"] = {"total": n_pert, "rejected": n_pert_rej, "degenerate_accept_identity_base": n_degenerate,
                                   "model_checked": n_pert_corr}
+    ctx.notes["truncated_response_attacks_rejected"] = n_attack[0]
     ctx.notes["modelled_protocols"] = sorted(MODELLED)
     ctx.notes["oracle_only_protocols"] = sorted(set(dist) - set(MODELLED))
     ctx.cov["samples"] += [{k: v for k, v in cs.items() if k in ("p", "n", "variant", "k", "ctx", "pub", "wit", "chal", "resp")}
